@@ -1053,8 +1053,9 @@ REVERTS = {
                                     {'Closer': 'TRUE', 'FaultBy': '{"sender"}'}, 'NoLeakedSendLock'),
     'revert:dab8b8e-latency-no-join': (_rev_latency_join, ['stopJoins', 'pingSelfJoin'], {'FaultBy': '{"sender"}', 'MaxPings': 1},
                                        'NoJoinUnderSendLock'),
-    'revert:6c1c06c-updater-release': (_rev_upd_release, ['updDoubleRelease'], {}, 'NoThreadDies'),
-    'revert:7e90fbe-fetcher-link-check': (_rev_fetcher_check, ['staleFetcher'], {}, 'NoEarlyConnected'),
+    'revert:6c1c06c-updater-release': (_rev_upd_release, ['updDoubleRelease'], {'FaultBy': '{"driver"}', 'MaxPings': 0}, 'NoThreadDies'),
+    'revert:7e90fbe-fetcher-link-check': (_rev_fetcher_check, ['staleFetcher'], {'FaultBy': '{"sender"}', 'MaxPings': 0},
+                                          'NoEarlyConnected'),
 }
 
 MUTANTS = {
@@ -1370,55 +1371,87 @@ def main(tier, seed, replay=None):
         return out.finish()
 
     from concurrent.futures import ThreadPoolExecutor
-    par = 4
-    workers = int(os.environ.get('VERIF_TLC_WORKERS', '0')) or max(2, common.NCPU // par)
+    ncpu = common.NCPU
+    big = ThreadPoolExecutor(2)                      # exhaustive checks of the repaired design: 2 at a time
+    small = ThreadPoolExecutor(max(2, ncpu // 2))    # bug cfgs and single-worker as-is searches
+    w_big = int(os.environ.get('VERIF_TLC_WORKERS', '0')) or max(2, ncpu // 4)
     scratch = tlc.scratch_dir('c02cfg-')
-    pool = ThreadPoolExecutor(par)
+
+    def search(name, static='MC_Lifecycle_asis.cfg', depth=None, timeout=900, **over):
+        """as-is counterexample search (one worker => deterministic).  Capped by a breadth-first depth bound
+        (deterministic) and by a wall-clock timeout; nothing found within the cap = no counterexample."""
+        p = _cfg_with(static, scratch, name + '.cfg', **over)
+        if depth:
+            with open(p, 'a') as f:
+                f.write('CONSTRAINT Depth%d\n' % depth)
+        try:
+            return tlc.run('MC_Lifecycle.tla', p, timeout=timeout, workers=1)
+        except tlc.TLCError as e:
+            if 'timed out' in str(e):
+                return None
+            raise
     try:
         # 1. the design spec: the repaired design satisfies C02 exhaustively; every as-is code site, switched on alone,
-        #    is refuted (vacuity guard); the code as it stands (all switches measured on the tree) is refuted
+        #    is refuted (vacuity guard / regression one cfg away)
         cfgs = ['MC_Lifecycle_quick.cfg', 'MC_Lifecycle_quick_sync.cfg'] if tier == 'quick' else \
-               ['MC_Lifecycle_quick.cfg', 'MC_Lifecycle_quick_sync.cfg', 'MC_Lifecycle_thorough_long.cfg',
-                'MC_Lifecycle_thorough_sync.cfg', 'MC_Lifecycle_thorough.cfg']
-        f_checks = [(cfg, pool.submit(tlc.check, 'MC_Lifecycle.tla', cfg, timeout=3000, workers=workers,
-                                      coverage=(cfg == 'MC_Lifecycle_quick.cfg' and tier == 'thorough'))) for cfg in cfgs]
-        f_bugs = [(b, pool.submit(tlc.expect_violation, 'MC_Lifecycle.tla', 'MC_Lifecycle_bug_%s.cfg' % b, timeout=1200,
-                                  workers=max(2, workers // 2))) for b in BUG_CFGS]
+               ['MC_Lifecycle_thorough.cfg', 'MC_Lifecycle_thorough_sync.cfg', 'MC_Lifecycle_thorough_long.cfg',
+                'MC_Lifecycle_quick.cfg', 'MC_Lifecycle_quick_sync.cfg']
+        f_checks = [(cfg, big.submit(tlc.check, 'MC_Lifecycle.tla', cfg, timeout=3000, workers=w_big,
+                                     coverage=(cfg == 'MC_Lifecycle_quick.cfg' and tier == 'thorough'))) for cfg in cfgs]
+        f_bugs = [(b, small.submit(tlc.expect_violation, 'MC_Lifecycle.tla', 'MC_Lifecycle_bug_%s.cfg' % b, timeout=1200,
+                                   workers=2)) for b in BUG_CFGS]
 
-        # 2. spec -> code.  (a) shortest counterexamples of the AS-IS spec with the constants of the real handshake,
-        #    one per invariant / API flavour, replayed step by step into the real code
+        # 2. spec -> code.  (a) shortest counterexamples of the AS-IS spec (switches measured on the tree) with the
+        #    constants of the real handshake, per invariant / API flavour / closer, replayed step by step
         scripted = []
-        combos = [(s_, c_, inv, 2, 1) for s_ in ('FALSE', 'TRUE') for c_ in ('FALSE', 'TRUE')
-                  for inv in ('HistoryOK', 'QuietOK', 'NoThreadDies', 'ReconnectOK')
-                  if tier == 'thorough' or not (c_ == 'TRUE' and inv in ('QuietOK', 'ReconnectOK'))]
-        combos += [('FALSE', 'FALSE', 'NoJoinUnderSendLock', 2, 1)]
-        if tier == 'thorough':
-            combos += [('FALSE', 'FALSE', inv, 3, 2) for inv in ('HistoryOK', 'QuietOK', 'ReconnectOK')]
-        f_asis = []
-        for i, (s_, c_, inv, natt, mf) in enumerate(combos):
-            over = dict(UseSync=s_, Closer=c_, NAtt=natt, MaxFaults=mf, Defects=_tla_set(defects), INVARIANTS=[inv])
-            if inv == 'NoJoinUnderSendLock':
-                over.update(FaultBy='{"sender"}', MaxPings=1)
-            p = _cfg_with('MC_Lifecycle_asis.cfg', scratch, 'asis%d.cfg' % i, **over)
-            # one worker: breadth-first search is then deterministic, so the same seed gives the same counterexample
-            f_asis.append(pool.submit(tlc.run, 'MC_Lifecycle.tla', p, timeout=2400, workers=1))
+        if tier == 'quick':
+            combos = [(s_, 'FALSE', inv, 2, 1, 50) for s_ in ('FALSE', 'TRUE') for inv in ('HistoryOK', 'QuietOK')] + \
+                     [('FALSE', 'FALSE', inv, 2, 1, 50) for inv in ('NoThreadDies', 'ReconnectOK')] + \
+                     [(s_, 'TRUE', 'HistoryOK', 2, 1, 30) for s_ in ('FALSE', 'TRUE')]
+        else:
+            combos = [(s_, c_, inv, 2, 1, 60 if c_ == 'FALSE' else 36) for s_ in ('FALSE', 'TRUE') for c_ in ('FALSE', 'TRUE')
+                      for inv in ('HistoryOK', 'QuietOK', 'NoThreadDies', 'ReconnectOK')] + \
+                     [('FALSE', 'FALSE', inv, 3, 2, 50) for inv in ('HistoryOK', 'QuietOK')]
+        f_asis = [small.submit(search, 'asis%d' % i, depth=dp, UseSync=s_, Closer=c_, NAtt=natt, MaxFaults=mf,
+                               Defects=_tla_set(defects), INVARIANTS=[inv])
+                  for i, (s_, c_, inv, natt, mf, dp) in enumerate(combos)]
+        #    the seven repairs of /repo, each reverted: the as-is spec with the pre-fix switch(es) back on gives the
+        #    schedule, the real code with the fix reverted IN MEMORY is driven along it (step 4 judges the traces)
+        f_rev = {}
+        for name, (_inst, sw, over, inv) in sorted(REVERTS.items()):
+            o = dict(Defects=_tla_set(sorted(set(defects) | set(sw))), INVARIANTS=[inv])
+            o.update(over)
+            f_rev[name] = small.submit(search, 'rev' + name.split(':')[1].split('-')[0], **o)
         nsim = 60 if tier == 'quick' else 600
         p = _cfg_with('SIM_Lifecycle.cfg', scratch, 'sim.cfg', Defects=_tla_set(defects))
-        f_sim = pool.submit(tlc.simulate, 'MC_Lifecycle.tla', p, num=nsim, depth=160, seed=seed % 100000, timeout=1500)
+        f_sim = small.submit(tlc.simulate, 'MC_Lifecycle.tla', p, num=nsim, depth=160, seed=seed % 100000, timeout=1500)
         for cfg, f in f_checks:
             out.add_tlc(cfg, f.result())
         for b, f in f_bugs:
             rb = f.result()
             out.sensitivity['spec:' + b] = 'refuted (%s) after %d states' % (rb.violated, rb.distinct)
-        for (s_, c_, inv, natt, mf), f in zip(combos, f_asis):
+        for (s_, c_, inv, natt, mf, dp), f in zip(combos, f_asis):
             r = f.result()
+            label = 'MC_Lifecycle_asis.cfg UseSync=%s Closer=%s NAtt=%d depth<=%d %s' % (s_, c_, natt, dp, inv)
+            if r is None:
+                out.tlc_runs.append({'config': label, 'violated': None, 'note': 'search timed out: no counterexample within the cap'})
+                continue
             out.states += r.distinct
             out.transitions += r.generated
-            out.tlc_runs.append(dict(r.summary(), config='MC_Lifecycle_asis.cfg UseSync=%s Closer=%s NAtt=%d %s' % (s_, c_, natt, inv)))
+            out.tlc_runs.append(dict(r.summary(), config=label))
             if r.violated and r.error_trace:
                 sc = scenario_from_behaviour(r.error_trace)
                 sc['origin'] = 'tlc-counterexample %s sync=%s closer=%s natt=%d' % (inv, s_, c_, natt)
                 scripted.append(sc)
+        rev_scs = {}
+        for name, f in f_rev.items():
+            r = f.result()
+            if r is None or not (r.violated and r.error_trace):
+                raise common.MachineryError('the as-is spec with the switches of %s back on was not refuted' % name)
+            out.states += r.distinct
+            out.transitions += r.generated
+            out.tlc_runs.append(dict(r.summary(), config='MC_Lifecycle_asis.cfg + %s' % name))
+            rev_scs[name] = scenario_from_behaviour(r.error_trace)
         #    (b) random behaviours of the as-is spec (tlc -simulate), same constants
         rs, behs = f_sim.result()
         out.add_tlc('SIM_Lifecycle.cfg (-simulate num=%d depth=160)' % nsim, rs)
@@ -1428,7 +1461,8 @@ def main(tier, seed, replay=None):
                 sc['origin'] = 'tlc-simulate'
                 scripted.append(sc)
     finally:
-        pool.shutdown(wait=True)
+        big.shutdown(wait=True)
+        small.shutdown(wait=True)
         shutil.rmtree(scratch, ignore_errors=True)
     rtraces = common.pmap(_replay_job, scripted, init=_init, maxtasks=100)
     for r, sc in zip(rtraces, scripted):
@@ -1484,6 +1518,8 @@ def main(tier, seed, replay=None):
     good = [sc for sc, t in zip(scs, traces) if verdicts[t['id']][0] == 'ok']
     sub = good[::max(1, len(good) // (70 if tier == 'quick' else 300))]
     for name in sorted(MUTANTS):
+        if name in REVERTS:
+            continue
         mt = run_scenarios(sub, mutant=name)
         o2 = common.Outcome('C02', tier, seed)
         mv = judge(o2, mt, 'mutant ' + name, defects, count=False)
@@ -1491,9 +1527,24 @@ def main(tier, seed, replay=None):
         out.sensitivity['mutant:' + name] = '%d of %d traces rejected (%s)' % (len(bad), len(mt), ','.join(sorted(set(bad))))
         if not bad:
             raise common.MachineryError('monitor did not reject in-memory mutant %s' % name)
+    # each repair of /repo reverted in memory, driven along the TLC schedule of the corresponding as-is switch: the
+    # monitor must reject the reverted code and accept the same schedule on the tree as it is
+    for name in sorted(rev_scs):
+        sc = rev_scs[name]
+        tm = execute(sc, mutant=MUTANTS[name], want_ops=True)
+        tu = execute(sc, want_ops=True)
+        o2 = common.Outcome('C02', tier, seed)
+        rv = judge(o2, [tm, tu], 'revert ' + name, defects, count=False)
+        cm_, cu_ = rv[1][0], rv[2][0]
+        out.sensitivity['mutant:' + name] = 'rejected (%s; replay %d/%d steps matched); unreverted tree on the same schedule: %s' % (
+            signature(tm, cm_, rv[1][1]) if cm_ != 'ok' else 'ok', tm['replay']['matched'], tm['replay']['len'],
+            'ok' if cu_ == 'ok' else signature(tu, cu_, rv[2][1]))
+        if cm_ == 'ok':
+            raise common.MachineryError('monitor did not reject the in-memory revert %s' % name)
     import copy
-    base = next((t for t, sc in zip(traces, scs) if verdicts[t['id']][0] == 'ok' and verdicts[t['id']][2] and t['cm'] and
-                 any(e['e'] == 'cb' and e['name'] == 'lost' for e in t['ev'])), None)
+    base = next((t for t in all_traces if verdicts[t['id']][0] == 'ok' and verdicts[t['id']][2] and t['cm'] and
+                 any(e['e'] == 'cb' and e['name'] == 'lost' for e in t['ev']) and
+                 any(e['e'] == 'op' and e['k'] == 'acq' for e in t['ev'])), None)
     if base is None:
         raise common.MachineryError('no conforming passing trace with a link failure found for the binding self-test')
     t1 = copy.deepcopy(base)
@@ -1516,61 +1567,36 @@ def main(tier, seed, replay=None):
 
 
 # --------------------------------------------------------------------------- known-findings enumeration (offline tool)
-def enumerate_known(natt=3, closer='TRUE', sync='FALSE', workers=8, max_rounds=40, timeout=1500, small=True):
+def enumerate_known(natt=3, closer='TRUE', sync='FALSE', workers=16, timeout=3000, maxfaults=None):
     """Which clauses can the AS-IS design spec (switches measured on the tree) violate, and in which variant
-    (T = no open_link of attempt >= 2 had begun, R = it had)?  Runs TLC repeatedly on MC_LifecycleEnum, each time
-    excluding what was already seen, until nothing new is reachable.  python -m harness.props.C02 prints the list."""
+    (T = no open_link of attempt >= 2 had begun, R = it had)?  One exhaustive TLC run of MC_LifecycleEnum (small
+    constants) that prints every key it meets.  `python -m harness.props.C02` prints the lists for reports/C02.md."""
     import os
     import shutil
     _init()
     defects = detect_defects()
-    seen = []
     scratch = tlc.scratch_dir('c02enum-')
     try:
-        while len(seen) < max_rounds:
-            base = 'MC_Lifecycle_quick.cfg' if small else 'MC_Lifecycle_asis.cfg'
-            txt = open(os.path.join(tlc.SPEC_DIR, base)).read()
-            txt = re.sub(r'(?m)^  Defects .*$', '  Defects = %s' % _tla_set(defects), txt)
-            for k, v in (('NAtt', natt), ('Closer', closer), ('UseSync', sync), ('MaxFaults', 2 if natt >= 3 else 1)):
-                txt = re.sub(r'(?m)^  %s = .*$' % k, '  %s = %s' % (k, v), txt)
-            txt = re.sub(r'(?m)^  FaultBy .*$', '  FaultBy = {"sender", "driver"}', txt)
-            lines = [ln for ln in txt.splitlines() if not ln.startswith('INVARIANT')]
-            i = lines.index('CHECK_DEADLOCK FALSE')
-            lines[i:i] = ['  Seen = %s' % _tla_set(seen), 'INVARIANT EnumInv', 'INVARIANT EnumQuiet']
-            p = os.path.join(scratch, 'enum.cfg')
-            with open(p, 'w') as f:
-                f.write('\n'.join(lines) + '\n')
-            r = tlc.run('MC_LifecycleEnum.tla', p, workers=workers, timeout=timeout)
-            if not r.violated:
-                return seen, r.distinct
-            last = r.error_trace[-1][1]
-            if r.violated == 'EnumInv':
-                key = '%s/%s' % (last['viol'], last['vwhen'])
-            else:
-                key = None
-                for cand in ('ThreadDied', 'Deadlock', 'SyncCallHangs', 'NotDisconnected'):
-                    for v in ('T', 'R'):
-                        if '%s/%s' % (cand, v) not in seen:
-                            pass
-                # the quiet clause is not a state variable: recompute it from the rule order (cheap: try the candidates)
-                key = 'QUIET?'
-            if key == 'QUIET?':
-                # ask TLC which clause: add candidates one by one
-                for cand in ('ThreadDied', 'Deadlock', 'SyncCallHangs', 'NotDisconnected'):
-                    k2 = '%s/%s' % (cand, 'R' if last['g']['next'] >= 3 else 'T')
-                    if k2 not in seen:
-                        key = k2
-                        break
-            if key in seen or key == 'QUIET?':
-                raise common.MachineryError('enumeration does not progress at %s' % key)
-            seen.append(key)
-        return seen, 0
+        txt = open(os.path.join(tlc.SPEC_DIR, 'MC_Lifecycle_quick.cfg')).read()
+        txt = re.sub(r'(?m)^  Defects .*$', '  Defects = %s' % _tla_set(defects), txt)
+        for k, v in (('NAtt', natt), ('Closer', closer), ('UseSync', sync),
+                     ('MaxFaults', maxfaults if maxfaults is not None else (2 if natt >= 3 else 1))):
+            txt = re.sub(r'(?m)^  %s = .*$' % k, '  %s = %s' % (k, v), txt)
+        txt = re.sub(r'(?m)^  FaultBy .*$', '  FaultBy = {"sender", "driver"}', txt)
+        lines = [ln for ln in txt.splitlines() if not ln.startswith('INVARIANT')]
+        i = lines.index('CHECK_DEADLOCK FALSE')
+        lines[i:i] = ['INVARIANT EnumInv', 'INVARIANT EnumQuiet']
+        p = os.path.join(scratch, 'enum.cfg')
+        with open(p, 'w') as f:
+            f.write('\n'.join(lines) + '\n')
+        r = tlc.run('MC_LifecycleEnum.tla', p, workers=workers, timeout=timeout)
+        keys = sorted({v[0] for v in tlc.printed_tuples(r.output, 'KEY')})
+        return keys, r.distinct, r.wall_s
     finally:
         shutil.rmtree(scratch, ignore_errors=True)
 
 
 if __name__ == '__main__':
-    import sys as _sys
     for (na, cl, sy) in ((2, 'TRUE', 'FALSE'), (2, 'TRUE', 'TRUE'), (3, 'FALSE', 'FALSE')):
-        s_, n_ = enumerate_known(natt=na, closer=cl, sync=sy)
-        print('NAtt=%d Closer=%s UseSync=%s: %s (final run %d states)' % (na, cl, sy, sorted(s_), n_))
+        k_, n_, w_ = enumerate_known(natt=na, closer=cl, sync=sy)
+        print('NAtt=%d Closer=%s UseSync=%s: %s (%d states, %.0f s)' % (na, cl, sy, k_, n_, w_), flush=True)
